@@ -26,14 +26,27 @@ use hyperdriver::verif_hooks::{verif_read_version, Rewind};
 #[derive(Clone, Copy)]
 enum Rd {
     P,
-    E,
+    E(usize),
     D(usize),
 }
 #[derive(Clone, Copy)]
 enum Wr {
     P,
-    E,
+    E(usize),
     A(usize),
+}
+
+/// the kind of a scripted error: every kind must be propagated as an error (none may be swallowed or turned into EOF)
+fn err_kind(k: usize) -> io::ErrorKind {
+    [
+        io::ErrorKind::Other,
+        io::ErrorKind::UnexpectedEof,
+        io::ErrorKind::ConnectionReset,
+        io::ErrorKind::BrokenPipe,
+        io::ErrorKind::ConnectionAborted,
+        io::ErrorKind::TimedOut,
+        io::ErrorKind::InvalidData,
+    ][k % 7]
 }
 
 struct Scripted {
@@ -47,7 +60,7 @@ impl Scripted {
     fn do_read(&mut self, free: usize) -> Poll<io::Result<Vec<u8>>> {
         let n = match self.rscript.pop_front() {
             Some(Rd::P) => return Poll::Pending,
-            Some(Rd::E) => return Poll::Ready(Err(io::Error::new(io::ErrorKind::Other, "scripted"))),
+            Some(Rd::E(k)) => return Poll::Ready(Err(io::Error::new(err_kind(k), "scripted"))),
             Some(Rd::D(k)) => k.min(free),
             None => free,
         };
@@ -58,7 +71,7 @@ impl Scripted {
         let total: usize = bufs.iter().map(|b| b.len()).sum();
         let n = match self.wscript.pop_front() {
             Some(Wr::P) => return Poll::Pending,
-            Some(Wr::E) => return Poll::Ready(Err(io::Error::new(io::ErrorKind::Other, "scripted"))),
+            Some(Wr::E(k)) => return Poll::Ready(Err(io::Error::new(err_kind(k), "scripted"))),
             Some(Wr::A(k)) => k.min(total),
             None => total,
         };
@@ -74,7 +87,7 @@ impl Scripted {
     fn do_flush(&mut self) -> Poll<io::Result<()>> {
         match self.wscript.pop_front() {
             Some(Wr::P) => Poll::Pending,
-            Some(Wr::E) => Poll::Ready(Err(io::Error::new(io::ErrorKind::Other, "scripted"))),
+            Some(Wr::E(k)) => Poll::Ready(Err(io::Error::new(err_kind(k), "scripted"))),
             _ => Poll::Ready(Ok(())),
         }
     }
@@ -291,10 +304,10 @@ fn run_case(line: &str) -> String {
     let prefix = unhex(f[1]);
     let stream = unhex(f[2]);
     let rscript: VecDeque<Rd> = if f[3] == "-" { VecDeque::new() } else {
-        f[3].split(',').map(|x| match &x[..1] { "P" => Rd::P, "E" => Rd::E, _ => Rd::D(x[1..].parse().unwrap()) }).collect()
+        f[3].split(',').map(|x| match &x[..1] { "P" => Rd::P, "E" => Rd::E(x[1..].parse().unwrap_or(0)), _ => Rd::D(x[1..].parse().unwrap()) }).collect()
     };
     let wscript: VecDeque<Wr> = if f[4] == "-" { VecDeque::new() } else {
-        f[4].split(',').map(|x| match &x[..1] { "P" => Wr::P, "E" => Wr::E, _ => Wr::A(x[1..].parse().unwrap()) }).collect()
+        f[4].split(',').map(|x| match &x[..1] { "P" => Wr::P, "E" => Wr::E(x[1..].parse().unwrap_or(0)), _ => Wr::A(x[1..].parse().unwrap()) }).collect()
     };
     let ops: Vec<Op> = if f[5] == "-" { vec![] } else {
         f[5].split(',').map(|x| match &x[..1] {
